@@ -141,6 +141,14 @@ def main():
         for i in range(nruns):
             cfg, th, jit = gen_config(rng.fork("c%d" % i), i, quick)
             jobs.append((i, cfg, th, jit, exe, root, False))
+        # pinned inputs of repaired findings are replayed in every run (several jitter seeds each)
+        pdir = os.path.join(HERE, "..", "pinned", "C01")
+        k = 0
+        for fn in sorted(os.listdir(pdir)) if os.path.isdir(pdir) else []:
+            rp = json.load(open(os.path.join(pdir, fn)))
+            for rep in range(4 if quick else 40):
+                jobs.append((900 + k, rp["cfg"], rp["threads"], "%d:200:2000" % rng.randint(1, 10 ** 6), exe, root, False))
+                k += 1
         for i in range(6 if quick else 60):
             cfg, th, jit = gen_rhd_config(rng.fork("r%d" % i), i)
             jobs.append((i, cfg, th, jit, exe, root, False))
